@@ -1,4 +1,4 @@
 SPECIFICATION TSpec
-INVARIANTS HeadHeaviestT TdAdditiveT HeadTdMonotoneT RestartKeepsHeadT HeadsKnownT
+INVARIANTS GeneratorOKT HeadHeaviestT TdAdditiveT HeadTdMonotoneT RestartKeepsHeadT HeadsKnownT NoPanicT
 POSTCONDITION TraceAccepted
 CHECK_DEADLOCK FALSE
